@@ -23,6 +23,12 @@ type Desc struct {
 	Media  string `json:"media"`
 	Digest string `json:"digest"`
 	Size   int64  `json:"size"`
+	// Extra: canonical rendering (ExtraOf) of every member of the descriptor other than media
+	// type, digest and size - urls, annotations, platform, artifactType, data; "" when there is
+	// none.  In a result: what the registry answered (the registry fills in media type, digest
+	// and size only, so anything here is compared with the model's empty field); in the
+	// descriptor argument of PushBlob: what the pusher's descriptor carries along.
+	Extra string `json:"extra,omitempty"`
 }
 
 type Op struct {
@@ -67,7 +73,7 @@ type Result struct {
 }
 
 func coqDesc(d Desc) string {
-	return fmt.Sprintf("{| d_media := %s; d_digest := %s; d_size := %s; d_artifact := [] |}", hx.B(d.Media), hx.B(d.Digest), hx.Z(d.Size))
+	return fmt.Sprintf("{| d_media := %s; d_digest := %s; d_size := %s; d_artifact := %s |}", hx.B(d.Media), hx.B(d.Digest), hx.Z(d.Size), hx.B(d.Extra))
 }
 
 func (o Op) Coq() string {
@@ -195,7 +201,77 @@ func NewExec(reg ociregistry.Interface, ptrIdent bool) *Exec {
 }
 
 func fromDesc(d ociregistry.Descriptor) *Desc {
-	return &Desc{Media: d.MediaType, Digest: string(d.Digest), Size: d.Size}
+	return &Desc{Media: d.MediaType, Digest: string(d.Digest), Size: d.Size, Extra: ExtraOf(d)}
+}
+
+// ExtraOf renders every member of d beyond media type, digest and size canonically (JSON object,
+// keys sorted; a member that is present but empty - a non-nil empty map or slice - is rendered
+// too); "" when d has none.
+func ExtraOf(d ociregistry.Descriptor) string {
+	m := map[string]any{}
+	if d.URLs != nil {
+		m["urls"] = d.URLs
+	}
+	if d.Annotations != nil {
+		m["annotations"] = d.Annotations
+	}
+	if d.Platform != nil {
+		m["platform"] = d.Platform
+	}
+	if d.ArtifactType != "" {
+		m["artifactType"] = d.ArtifactType
+	}
+	if d.Data != nil {
+		m["data"] = d.Data
+	}
+	if len(m) == 0 {
+		return ""
+	}
+	b, err := json.Marshal(m)
+	if err != nil {
+		panic(err)
+	}
+	return string(b)
+}
+
+// GoDesc is the descriptor a Desc stands for, optional members included (fresh maps / slices).
+func (d Desc) GoDesc() ociregistry.Descriptor {
+	r := ociregistry.Descriptor{MediaType: d.Media, Digest: ociregistry.Digest(d.Digest), Size: d.Size}
+	if d.Extra != "" {
+		var x struct {
+			URLs         []string          `json:"urls"`
+			Annotations  map[string]string `json:"annotations"`
+			Platform     *ocispec.Platform `json:"platform"`
+			ArtifactType string            `json:"artifactType"`
+			Data         []byte            `json:"data"`
+		}
+		if err := json.Unmarshal([]byte(d.Extra), &x); err != nil {
+			panic("memsim: Desc.Extra: " + err.Error())
+		}
+		r.URLs, r.Annotations, r.Platform, r.ArtifactType, r.Data = x.URLs, x.Annotations, x.Platform, x.ArtifactType, x.Data
+	}
+	return r
+}
+
+// scribbleDesc: the descriptor handed to a push is the caller's too - once the call has returned
+// the caller may change its maps and slices (a layer descriptor that gets another annotation, a
+// builder that reuses its url slice).  A registry that kept them shows the changes afterwards.
+func scribbleDesc(d ociregistry.Descriptor) {
+	for i := range d.URLs {
+		d.URLs[i] = "https://scribbled.example/"
+	}
+	for k := range d.Annotations {
+		d.Annotations[k] = "scribbled"
+	}
+	if d.Annotations != nil {
+		d.Annotations["scribbled"] = "after the push"
+	}
+	if d.Platform != nil {
+		d.Platform.OS = "scribbled"
+	}
+	for i := range d.Data {
+		d.Data[i] = '#'
+	}
 }
 
 func errResult(err error) Result {
@@ -315,12 +391,16 @@ func (e *Exec) run(ctx context.Context, o Op) Result {
 		if o.Opaque {
 			content = opaqueReader{content}
 		}
-		d, err := e.Reg.PushBlob(ctx, o.Repo, ociregistry.Descriptor{MediaType: o.Desc.Media, Digest: ociregistry.Digest(o.Desc.Digest), Size: o.Desc.Size}, content)
+		arg := o.Desc.GoDesc()
+		d, err := e.Reg.PushBlob(ctx, o.Repo, arg, content)
 		scribble(buf)
 		if err != nil {
+			scribbleDesc(arg)
 			return errResult(err)
 		}
-		return Result{Kind: "desc", Desc: fromDesc(d)}
+		res := Result{Kind: "desc", Desc: fromDesc(d)} // before the scribble: the answer may well share with the argument
+		scribbleDesc(arg)
+		return res
 	case "PushBlobChunked":
 		w, err := e.Reg.PushBlobChunked(ctx, o.Repo, int(o.Hint))
 		if err != nil {
